@@ -53,13 +53,14 @@ def sh(cmd, timeout, cwd=None, env=None):
 
 
 class Lock:
-    def __init__(self, name):
+    def __init__(self, name, shared=False):
         os.makedirs(BUILD, exist_ok=True)
         self.path = os.path.join(BUILD, "lock." + name)
+        self.shared = shared
 
     def __enter__(self):
-        self.f = open(self.path, "w")
-        fcntl.flock(self.f, fcntl.LOCK_EX)
+        self.f = open(self.path, "a")
+        fcntl.flock(self.f, fcntl.LOCK_SH if self.shared else fcntl.LOCK_EX)
         return self
 
     def __exit__(self, *a):
@@ -375,6 +376,16 @@ def write_replay(pid, seed, name, payload):
 
 
 def run_check(cfg, tier, seed):
+    """Holds a shared lock on /repo for the duration of the check so that driver/with_patch.py
+    (which temporarily patches /repo under an exclusive lock while testing a seeded change) never
+    changes the sources under a running check."""
+    if os.environ.get("VERIF_REPO_LOCK_HELD") == "1":
+        return _run_check(cfg, tier, seed)
+    with Lock("repo", shared=True):
+        return _run_check(cfg, tier, seed)
+
+
+def _run_check(cfg, tier, seed):
     t0 = time.time()
     pid = cfg["id"]
     work = os.path.join(BUILD, "cases", pid, tier)
